@@ -33,6 +33,7 @@ type facts struct {
 	EventFormats    []string          `json:"event_formats"`
 	IDEscapeFn      string            `json:"id_escape_fn"`
 	SysFlags        map[string]bool   `json:"sys_flags"`
+	LegacyFlags     map[string]bool   `json:"legacy_flags"`
 	Consts          map[string]string `json:"consts"`
 	Errors          []string          `json:"errors"`
 }
@@ -619,6 +620,34 @@ func (fa *facts) sysFlags(repo string) {
 	fa.SysFlags = fl
 }
 
+// legacyFlags: shape of config.go's ValidateConfig / NewHubFromViper.
+func (fa *facts) legacyFlags(repo string) {
+	f := parse(repo, "config.go")
+	fl := map[string]bool{}
+	if fd := funcDecl(f, "", "ValidateConfig"); fd != nil {
+		src := nodeString(fd)
+		fl["requireSubscriberKey"] = strings.Contains(src, `"subscriber_jwt_key"`) && strings.Contains(src, `"allow_anonymous"`)
+	} else {
+		fa.errf("config.go: ValidateConfig not found")
+	}
+	if fd := funcDecl(f, "", "NewHubFromViper"); fd != nil {
+		// the old shape: `if d := v.GetDuration("heartbeat_interval"); d != 0 {` — a zero is replaced by the hub default
+		src := nodeString(fd)
+		zeroDropped := func(key string) bool {
+			i := strings.Index(src, `v.GetDuration("`+key+`"); d != 0`)
+
+			return i >= 0
+		}
+		fl["zeroMeansDisabled"] = !zeroDropped("heartbeat_interval") && !zeroDropped("dispatch_timeout")
+		if !strings.Contains(src, `"heartbeat_interval"`) || !strings.Contains(src, `"dispatch_timeout"`) {
+			fa.errf("config.go: NewHubFromViper: duration options not recognised")
+		}
+	} else {
+		fa.errf("config.go: NewHubFromViper not found")
+	}
+	fa.LegacyFlags = fl
+}
+
 func exprString2(e ast.Expr) string {
 	if u, ok := e.(*ast.UnaryExpr); ok {
 		return "&" + exprString(u.X)
@@ -655,7 +684,7 @@ func leanStrList(l []string) string {
 
 func (fa *facts) lean() string {
 	var b strings.Builder
-	b.WriteString("import Mercure.Model.Selector\nimport Mercure.Model.Sys\n/- GENERATED by /verif/harness/cmd/extract from /repo on every run — do not edit. -/\nnamespace Mercure.Facts\n")
+	b.WriteString("import Mercure.Model.Selector\nimport Mercure.Model.Sys\nimport Mercure.Model.Config\n/- GENERATED by /verif/harness/cmd/extract from /repo on every run — do not edit. -/\nnamespace Mercure.Facts\n")
 	var segs []string
 	for _, s := range fa.MatchKeySegs {
 		switch s.Kind {
@@ -683,6 +712,7 @@ func (fa *facts) lean() string {
 	fmt.Fprintf(&b, "def idEscapeFn : String := %q\n", fa.IDEscapeFn)
 	fmt.Fprintf(&b, "def sysFlags : Mercure.Sys.Flags := ⟨%v, %v, %v, %v, %v, %v⟩\n", fa.SysFlags["closeOnOverflow"], fa.SysFlags["readyGuard"],
 		fa.SysFlags["disconnectRecheck"], fa.SysFlags["localMatchLocked"], fa.SysFlags["lastSeqOnOpen"], fa.SysFlags["cutBeforeDispatch"])
+	fmt.Fprintf(&b, "def legacyFlags : Mercure.Config.LegacyFlags := ⟨%v, %v⟩\n", fa.LegacyFlags["requireSubscriberKey"], fa.LegacyFlags["zeroMeansDisabled"])
 	fmt.Fprintf(&b, "def extractionErrors : Nat := %d\n", len(fa.Errors))
 	b.WriteString("end Mercure.Facts\n")
 
@@ -713,6 +743,7 @@ func main() {
 	fa.replacers(repo)
 	fa.idEscape(repo)
 	fa.sysFlags(repo)
+	fa.legacyFlags(repo)
 	if fa.Errors == nil {
 		fa.Errors = []string{}
 	}
